@@ -238,3 +238,7 @@ mod tests {
         assert_eq!(normalize_frequencies(&raw_frequencies), [0; ALPHABET_SIZE]);
     }
 }
+
+#[cfg(kani)]
+#[path = "/verif/harness/cram/rans_4x8_encode_order_0.rs"]
+pub(crate) mod verif_kani;
